@@ -87,6 +87,12 @@ def build_pool(seed, n_texts=640):
             pool.append({'api': 'glob.glob', 'pat': t, 'flags': ['EXTMATCH', 'IGNORECASE', 'GLOBSTAR'], 'bytes': True})
             pool.append({'api': 'pathlib.match', 'pat': t, 'flags': list(rng.choice([('EXTMATCH',), ('EXTMATCH', 'GLOBSTAR'), ('EXTMATCH', 'DOTMATCH')])), 'bytes': False})
             pool.append({'api': 'wcmatch', 'pat': t, 'flags': [], 'bytes': rng.random() < 0.3})
+            # the same text through the walker with and without MATCHBASE's / rglob's implicit prefix (what one call adds to the
+            # parsed pattern must not be seen by the other)
+            pool.append({'api': 'glob.glob', 'pat': t, 'flags': ['EXTMATCH', 'GLOBSTAR', 'MATCHBASE'], 'bytes': False})
+            pool.append({'api': 'glob.glob', 'pat': t, 'flags': ['EXTMATCH', 'GLOBSTAR'], 'bytes': False})
+            pool.append({'api': 'pathlib.rglob', 'pat': t, 'flags': ['EXTMATCH', 'GLOBSTAR'], 'bytes': False})
+            pool.append({'api': 'pathlib.glob', 'pat': t, 'flags': ['EXTMATCH', 'GLOBSTAR'], 'bytes': False})
     # texts with escapes: the same text under Windows / Unix style, with and without RAWCHARS, str and bytes (normalisation of the
     # pattern text happens before parsing and must depend on all of these)
     for t in fixed:
@@ -140,6 +146,10 @@ def eval_call(c, root):
         if api == 'glob.glob':
             r = os.fsencode(root) if b else root
             return sorted(dec(G.glob(pat, flags=flags, root_dir=r)))
+        if api in ('pathlib.rglob', 'pathlib.glob'):
+            P_ = WP.Path(root)
+            it = P_.rglob(c['pat'], flags=flags & PATHLIB_MASK) if api == 'pathlib.rglob' else P_.glob(c['pat'], flags=flags & PATHLIB_MASK)
+            return sorted(os.path.relpath(str(x), root) for x in it)
         if api == 'pathlib.match':
             return [bool(WP.PurePosixPath(n).match(c['pat'], flags=flags & PATHLIB_MASK)) for n in NAMES if n]
         if api == 'wcmatch':
@@ -340,6 +350,40 @@ def matcher_objects(ctx, pool, rng):
                 if aa != bb and (ma == mb or not (ma != mb)):
                     ctx.disagree('two matchers compare equal although they accept different names',
                                  {'mode': 'attribute-pairs', 'pattern': repr(pat), 'flags_a': fa, 'flags_b': fb, 'answers_a': aa, 'answers_b': bb})
+    # the same pattern texts distributed differently between inclusions and exclusions (same total number of patterns)
+    if getattr(ctx, 'shard', 0) == (1 % max(getattr(ctx, 'nshards', 1), 1)):
+        names_ = ['x.a', 'x.b', 'x.c', 'x', '.a', 'a', 'b']
+        for mod in (F, G):
+            S_, N_, B_ = mod.SPLIT, mod.NEGATE, mod.BRACE
+            groups = [
+                [(['*.a', '*.b'], 0, {}), (['*.a'], 0, {'exclude': ['*.b']}), (['*.a', '!*.b'], N_, {}), (['*.b', '*.a'], 0, {}), (['*.b'], 0, {'exclude': ['*.a']})],
+                [('*.a|*.b', S_, {}), ('*.a|!*.b', S_ | N_, {}), ('!*.a|*.b', S_ | N_, {})],
+                [('*.{a,b,c}', B_, {}), (['*.{a,b}', '!*.c'], B_ | N_, {}), (['*.{a,b}'], B_, {'exclude': '*.c'}), (['*.a'], B_, {'exclude': '*.{b,c}'})],
+                [(['*', '!*.a', '!*.b'], N_, {}), (['*', '*.a', '!*.b'], N_, {}), (['*'], 0, {'exclude': ['*.a', '*.b']}), (['*', '*.a'], 0, {'exclude': ['*.b']})],
+                [([b'*.a', b'*.b'], 0, {}), ([b'*.a'], 0, {'exclude': [b'*.b']})],
+            ]
+            for grp in groups:
+                ms = []
+                for pats, fl, kw in grp:
+                    try:
+                        m_ = mod.compile(pats, flags=fl, **kw)
+                        is_b = isinstance(pats[0] if isinstance(pats, list) else pats, bytes)
+                        ms.append((m_, tuple(m_.match(n.encode() if is_b else n) for n in names_), repr((pats, fl, kw))))
+                    except Exception:  # noqa: BLE001
+                        continue
+                for i_ in range(len(ms)):
+                    for j_ in range(i_ + 1, len(ms)):
+                        (ma, va, da), (mb, vb, db) = ms[i_], ms[j_]
+                        ctx.count('matcher_object_checks')
+                        for what, x, y in (('original', ma, mb), ('pickled', pickle.loads(pickle.dumps(ma)), copy.deepcopy(mb))):
+                            eq, ne = (x == y), (x != y)
+                            if eq is ne:
+                                ctx.disagree('`==` and `!=` of two matchers give the same answer', {'mode': 'structure-pairs', 'a': da, 'b': db, 'which': what})
+                            elif va != vb and eq:
+                                ctx.disagree('two matchers compare equal although they accept different names',
+                                             {'mode': 'structure-pairs', 'a': da, 'b': db, 'answers_a': va, 'answers_b': vb, 'which': what})
+                            elif eq and hash(x) != hash(y):
+                                ctx.disagree('two equal matchers have different hashes', {'mode': 'structure-pairs', 'a': da, 'b': db, 'which': what})
     # never equal when they accept different names
     for i in range(len(built)):
         for j in range(i + 1, len(built)):
